@@ -126,7 +126,9 @@ def sweep_table(length):
     for i, k in enumerate(("p1", "p2", "p3", "p4", "kw", "ret")):
         words, j = [("first", "second", "third", "fourth", "extra", "result")[i]], i
         while len(" ".join(words)) < length:
-            words.append(_WORDS[j % len(_WORDS)])
+            # every other word is a hyphenated compound: over the swept lengths the wrap column falls on each of their hyphens
+            w = _WORDS[j % len(_WORDS)]
+            words.append(w if len(words) % 2 else w + "-" + _WORDS[(j + 7) % len(_WORDS)])
             j += 5
         text = " ".join(words)[:length]
         if text.endswith(" "):
@@ -141,10 +143,13 @@ def _tn():
     t = _t0()
     t["id"] = "TN"
     t["names"] = {"p1": "rate", "p2": "learning_rate", "p3": "learning", "p4": "rate_decay", "kw": "rate_kwargs"}
+    # a summary of three short lines (each fits the line, together they do not)
+    t["summary"] = dict(t["summary"], multi="Acquire the dataset from the official zoo of well-known models,\n"
+                                            "or from the ophthalmology-focussed ml-prepare library,\nwhichever knows the name of it")
     # prose that starts with a word the parsers treat specially ("Optional ..." wraps the type in Optional[..]): used only for
     # slots whose type already is Optional[..], where the wrapper must stay exactly one (see realise / a_prose)
     # free-standing dashes (a spaced dash, a flattened bullet list, a range): a wrapped line may end in one
-    t["prose"] = dict(t["prose"], p1="name of dataset - one of - mnist - cifar", p3="number of samples per batch - in the range 1 - 500",
+    t["prose"] = dict(t["prose"], p1="name of dataset - one of - mnist - cifar", p3="number of samples per batch - in the range 1 - 500", p2="directory of state-of-the-art pre-trained mixed-precision models",
                       ret="train and tests dataset splits - as a pair")
     # values that compare equal across types (1 == 1.0 == True, 0 == 0.0 == False) live side by side in this table
     t["def"] = dict(t["def"], intPos=1, float=1.0)
@@ -160,6 +165,7 @@ def _tl():
     word wrap is at work in every entry (C18: "shorter than, equal to and much longer than the width")."""
     t = _t0()
     t["id"] = "TL"
+    t["long_summary"] = True
     t["prose"] = {
         "p1": "name of the dataset that is going to be downloaded from the official model zoo of the project and then cached locally for every later run",
         "p2": "directory in which the downloaded archives and the extracted models are looked for before anything is fetched over the network again",
@@ -439,10 +445,19 @@ def a_prose(table, key, doc, deftok, typ_toks=("none",), is_ret=False):
 
 
 def a_summary(table, doc):
+    """The summary token; `<tok>~` when the text agrees only modulo white space (lines re-flowed, paragraphs merged) - unless
+    the table's summary lines are longer than the line anyway (TL), where wrapping has to change the layout."""
+    import os
+
     s = norm_ws(doc or "")
+    width = int(os.environ.get("DOCTRANS_LINE_LENGTH", 100))
     for tok, t in table["summary"].items():
-        if norm_ws(t) == s:
+        if (doc or "") == t:
             return tok
+        if norm_ws(t) == s:
+            # a line that does not fit the configured width (less the deepest docstring indentation) has to be wrapped
+            must_wrap = table.get("long_summary") or any(len(x) + 12 > width for x in t.splitlines())
+            return tok if must_wrap else tok + "~"
     return "other"
 
 
